@@ -381,7 +381,7 @@ class Interp:
 
         def b_len(x):
             if isinstance(x, SStr):
-                n = x.fixed_len()
+                n = x.sym_len()
                 if n is None:
                     raise Inapplicable("len() of a variable-length structured string")
                 return n
